@@ -20,7 +20,10 @@ RULE = ("random MJCF models straddling MJX's feature lattice (tree of 2-5 bodies
 ASSUMPTIONS = [
     "VERDICT oracle = the C engine of the installed mujoco 3.13.0 wheel on the identical MjModel (MJX can only ingest the "
     "installed binding's MjModel; MJX's own tests do the same). The repository is 3.12.1: a field where the repo's C code "
-    "agrees with MJX and differs from the wheel is version skew and is dropped from the verdict set (listed in SKEW)",
+    "agrees with MJX and differs from the wheel is version skew: every unexplained difference is re-evaluated on the tree's own "
+    "C build (drv.Lib('rel'), same XML and state); if that build reproduces MJX's value the case is counted as "
+    "reference_skew_wheel_vs_tree[field] and not judged (observed: 3.13.0 clamps ctrl in the implicitfast actuator "
+    "velocity derivative, the tree does not)",
     "float64 (jax_enable_x64) relative tolerance 1e-6 of max(1,|field|_inf) for closed-form quantities; 1e-4 for quantities "
     "that depend on the iterative constraint solver (both solvers run to tolerance 1e-12, <=100/400 iterations); the "
     "float32 subsample uses 2e-3 / 2e-2",
